@@ -27,7 +27,7 @@ constexpr int kMaxSteps = 5;
 constexpr int kMaxGates = 8;
 constexpr int kMaxExits = 3;
 
-enum StepKind { ST_GATE, ST_TASK, ST_SCHEDULE, ST_THROW, ST_DONE, ST_OBJ, ST_AWAIT };  // ST_AWAIT: a plain awaitable (not a sender) whose await_suspend returns bool; arg: 0 does not suspend, 1 suspends and is resumed by a foreign thread (possibly before await_suspend returns)  // ST_OBJ: await a task<CVal>; arg=1: constructing its result throws
+enum StepKind { ST_GATE, ST_TASK, ST_SCHEDULE, ST_THROW, ST_DONE, ST_OBJ, ST_AWAIT, ST_NTASK };  // ST_NTASK: await a nothrow_task<long> that awaits a gate (value or done only)  // ST_AWAIT: a plain awaitable (not a sender) whose await_suspend returns bool; arg: 0 does not suspend, 1 suspends and is resumed by a foreign thread (possibly before await_suspend returns)  // ST_OBJ: await a task<CVal>; arg=1: constructing its result throws
 
 struct Step {
   int kind = ST_GATE;
@@ -66,6 +66,7 @@ struct CWorld {
   volatile int finished = 0;
   int root_ctx = 1;
   int nbody_gates = 0;
+  bool ntask_gate[kMaxGates] = {};  // awaited inside a nothrow_task: never an error (an exception there terminates by design)
   // raw-awaitable hand-off: a resumer thread resumes published coroutine handles
   std::coroutine_handle<> pending[8];
   volatile int npending = 0, nresumed = 0;
@@ -137,6 +138,12 @@ unifex::task<CVal> obj_task(long id, bool throws) {
   co_return std::as_const(local);  // copy-constructs the task's result (may throw)
 }
 
+unifex::nothrow_task<long> ntask(CWorld* w, int gate) {
+  Local l(900 + gate);
+  long v = co_await gate_sender{&w->gates[gate]};
+  co_return v + 1;
+}
+
 unifex::task<long> run_task(CWorld* w, int t, int ctx_now) {
   TaskPlan& p = w->tasks[t];
   { usim::np_scope np; w->task_entered[t]++; }
@@ -175,6 +182,10 @@ unifex::task<long> run_task(CWorld* w, int t, int ctx_now) {
         case ST_OBJ: {
           CVal v = co_await obj_task(300 + t * 10 + s, st.arg == 1);
           co_return v.id;
+        }
+        case ST_NTASK: {
+          long v = co_await ntask(w, st.arg);
+          co_return v;
         }
         case ST_AWAIT: {
           long v = co_await HandoffAwaitable{w, st.arg, 400 + t * 10 + s};
@@ -239,6 +250,13 @@ MRes model_task(CWorld* w, int t, int* ctx_now) {
       case ST_THROW: r = MRes{CH_ERROR, 7000 + t * 10 + s}; break;
       case ST_OBJ: r = st.arg == 1 ? MRes{CH_ERROR, 7300 + t * 10 + s} : MRes{CH_VALUE, 300 + t * 10 + s}; break;
       case ST_AWAIT: r = MRes{CH_VALUE, 400 + t * 10 + s}; break;
+      case ST_NTASK: {
+        Gate& g = w->gates[st.arg];
+        if (g.delivered == CH_NONE) return MRes{CH_NONE, 0};
+        r.ch = g.delivered;
+        r.v = g.payload + (g.delivered == CH_VALUE ? 1 : 0);
+        break;
+      }
       case ST_DONE: r = MRes{CH_DONE, 0}; break;
     }
     if (r.ch == CH_DONE) { *ctx_now = entry_ctx; return r; }  // done is not catchable: unwinds
@@ -270,8 +288,9 @@ void body_coro(void*) {
       else if (k < 7 && t + 1 < w->ntasks) { st.kind = ST_TASK; st.arg = t + 1 + draw(w->ntasks - t - 1); }
       else if (k < 8) { st.kind = ST_SCHEDULE; st.arg = 1 + draw(2); }
       else if (k < 9) {
-        int q = draw(6);
-        st.kind = q == 0 ? ST_THROW : q == 1 ? ST_DONE : q < 4 ? ST_OBJ : ST_AWAIT;
+        int q = draw(8);
+        st.kind = q == 0 ? ST_THROW : q == 1 ? ST_DONE : q < 4 ? ST_OBJ : q < 6 ? ST_AWAIT : ST_NTASK;
+        if (st.kind == ST_NTASK) { if (w->ngates < kMaxGates) { st.arg = w->ngates++; w->ntask_gate[st.arg] = true; } else st.kind = ST_SCHEDULE, st.arg = 1 + draw(2); }
         if (st.kind == ST_OBJ) st.arg = draw(3) == 0;
         if (st.kind == ST_AWAIT) st.arg = draw(3) == 0 ? 0 : 1;
       }
@@ -306,7 +325,8 @@ void body_coro(void*) {
     G.mode = draw(3) == 0 ? 0 : 1;
     G.on_stop = draw(4) == 0 ? 0 : 1;
   }
-  for (int g = w->nbody_gates; g < w->ngates; ++g) { w->gates[g].outcome = CH_VALUE; w->gates[g].on_stop = 0; }  // gates awaited by exit actions always deliver a value
+  for (int g = w->nbody_gates; g < w->ngates; ++g) { w->gates[g].outcome = CH_VALUE; w->gates[g].on_stop = 0; }
+  for (int g = 0; g < w->nbody_gates; ++g) if (w->ntask_gate[g] && w->gates[g].outcome == CH_ERROR) w->gates[g].outcome = CH_VALUE;  // gates awaited by exit actions always deliver a value
   w->root_ctx = 1 + draw(2);
   int sm = draw(8);
   w->stop_mode = sm < 5 ? 0 : sm < 6 ? 1 : 2;  // 0 none, 1 before start, 2 when gate `stop_gate` is armed
@@ -329,7 +349,7 @@ void body_coro(void*) {
       o += snprintf(buf + o, sizeof buf - o, "T%d[x%d:", t, w->tasks[t].nexits);
       for (int s = 0; s < w->tasks[t].nsteps; ++s) {
         Step& st = w->tasks[t].steps[s];
-        const char* nm = st.kind == ST_GATE ? "g" : st.kind == ST_TASK ? "t" : st.kind == ST_SCHEDULE ? "s" : st.kind == ST_THROW ? "throw" : st.kind == ST_OBJ ? "obj" : st.kind == ST_AWAIT ? "await" : "done";
+        const char* nm = st.kind == ST_GATE ? "g" : st.kind == ST_TASK ? "t" : st.kind == ST_SCHEDULE ? "s" : st.kind == ST_THROW ? "throw" : st.kind == ST_OBJ ? "obj" : st.kind == ST_AWAIT ? "await" : st.kind == ST_NTASK ? "ntask" : "done";
         o += snprintf(buf + o, sizeof buf - o, "%s%s%d%s", s ? "," : "", nm, st.arg, st.guarded ? "?" : "");
         if (st.kind == ST_GATE) o += snprintf(buf + o, sizeof buf - o, "(%s%s)", ch_name(w->gates[st.arg].outcome), w->gates[st.arg].mode ? "" : "!");
       }
